@@ -148,6 +148,9 @@ def _run_job(args):
         core.explore(job.scenario, stats=stats, seed=seed, max_paths=job.max_paths,
                      on_path=on_path, deadline=deadline)
         viols = stats.violations
+        stalled = [o for o in stats.outcomes if o.startswith("canonical-stalled")]
+        if stalled and not viols:
+            out["inconclusive"] = "vacuity: " + stalled[0]
         missing = [o for o in job.must_reach if stats.outcomes.get(o, 0) == 0]
         if missing and not viols:
             out["inconclusive"] = "vacuity: outcome classes never reached: %s" % missing
